@@ -115,6 +115,7 @@ type VC struct {
 	decisions map[string]bool // forced truth values of opaque predicates (VC-level case split)
 	entry    *State
 	scaled   map[int][]string // index terms scaled by an element size (see scaleReg)
+	stable   []modTarget // cells assumed unchanged by calls of unknown effect ('stable' contract lines)
 	exhaustOnly bool // this VC only checks that the contract-level case splits cover the preconditions
 }
 
